@@ -186,12 +186,14 @@ def result_to_dict(res):
     return d
 
 
-def run_client(stmt, faults=(), world=None, cid=0, use_probes=True, shared=None, capture=True):
+def run_client(stmt, faults=(), world=None, cid=0, use_probes=True, shared=None, capture=True,
+               normalize_layout=False):
     """Run one real minimize() call for the materialised statement."""
     world = world or World()
     faults = list(faults)
     rec = Record(stmt, faults)
     ctx = ClientCtx(world, cid, stmt, faults)
+    ctx.normalize_layout = normalize_layout
     if use_probes:
         ctx.probe = probes.ProbeState()
     try:
